@@ -141,6 +141,13 @@ def batch_runs(ctx, kinds=("span", "log"), focus=None):
         for sc in slow if focus in ("C02", "C01") else slow[:1]:
             runs.append(["explore", k, "random", n // 2, s + 78, sc])
             runs.append(["explore", k, "pct", n // 2, s + 79, sc])
+        if focus == "C01":
+            # production goes on while and after two flushers overlap on a slow exporter, with a tiny queue:
+            # "never lost when at most max_queue_size records are produced between two completed flushes"
+            # (BatchMonitor: a ForceFlush that returned true has emptied the queue of its snapshot - `flushed`)
+            for sc in ["2,1,2,4,2,1,8,0,0,0,0,0", "3,1,1,6,2,1,8,0,0,0,0,0", "2,2,2,5,2,1,4,3,0,0,0,0"]:
+                runs.append(["explore", k, "random", n // 2, s + 80, sc])
+                runs.append(["explore", k, "pct", n // 2, s + 81, sc])
     return runs
 
 
